@@ -235,7 +235,7 @@ func check(args []string) int {
 	fn := fs.String("func", "", "only this function key (substring)")
 	pkgsFlag := fs.String("pkgs", "", "comma separated package dirs (default: all with contract files)")
 	dump := fs.String("dump", "", "directory to keep .smt2 files")
-	timeout := fs.Duration("timeout", 10*time.Second, "per-obligation timeout")
+	timeout := fs.Duration("timeout", 15*time.Second, "per-obligation timeout")
 	evidence := fs.String("evidence", "", "evidence file to write")
 	verbose := fs.Bool("v", false, "verbose")
 	noReplay := fs.Bool("noreplay", false, "do not run replays")
